@@ -18,8 +18,11 @@ from .utils import get_logger
 
 logger = get_logger("cache")
 
-# what np.load / zipfile raise on a truncated, empty or otherwise corrupt entry
-_UNREADABLE = (OSError, ValueError, EOFError, KeyError, zipfile.BadZipFile)
+# A truncated, empty or otherwise corrupt entry makes np.load / zipfile raise
+# OSError, ValueError, EOFError, KeyError, zipfile.BadZipFile, and -- when a
+# member header is damaged -- whatever the header parser raises (e.g.
+# tokenize.TokenError): any failure to read an entry means "unreadable".
+_UNREADABLE = Exception
 
 
 class GreensFunctionCache:
